@@ -47,6 +47,10 @@ pub struct WCase {
     /// after the ops, everybody keeps stepping at this cadence for this long (terminal events, lingering timers)
     pub settle_step_us: u32,
     pub settle_us: u64,
+    /// the server application reads at most this many events of each step() and drops the iterator (documented as
+    /// allowed: "all events are considered delivered, even if the iterator is not consumed until the end")
+    #[serde(default)]
+    pub server_event_limit: Option<u8>,
 }
 
 #[derive(Clone, Debug, PartialEq)]
@@ -170,6 +174,7 @@ pub fn wcase_strategy(p: &ScriptParams) -> BoxedStrategy<WCase> {
             ops,
             settle_step_us,
             settle_us: settle,
+            server_event_limit: None,
         })
         .boxed()
 }
@@ -180,6 +185,7 @@ pub const STREAM_S2C: u8 = 100;
 /// (server: Some(events), None; client k: None, Some((k, events))).
 pub fn run_script(c: &WCase) -> WorldLog {
     let mut w = World::new(c.seed, &c.server);
+    w.server_event_limit = c.server_event_limit.map(|v| v as usize);
     let n = c.clients.len();
     let mut ci: Vec<Option<usize>> = vec![None; n];
     let mut api: Vec<(u64, u64, Api)> = Vec::new();
